@@ -119,7 +119,7 @@ var workDir = "."
 
 var tableNames = []string{"ta", "tb", "tc", "td"}
 var colNames = []string{"a", "b", "c", "d", "e"}
-var viewNames = []string{"va", "vb"}
+var viewNames = []string{"va", "vb", "vc", "vd", "ve", "vf"}
 
 func val(s string) string {
 	if s == "" {
@@ -342,7 +342,7 @@ func (h *harness) genAdmin(sn *snap) adminReq {
 		existing = append(existing, n)
 	}
 	sort.Strings(existing)
-	kind := g.Pick(4, 2, 4, 3, 2, 2, 2, 3)
+	kind := g.Pick(4, 2, 4, 3, 2, 2, 4, 3)
 	if len(existing) == 0 {
 		kind = 0
 	}
@@ -927,6 +927,9 @@ func Run(s *simrt.Sim, mode string, ri *hkit.RunInfo) {
 	os.Chdir(h.dir)
 
 	nops := g.Range(5, 40)
+	if os.Getenv("VERIF_TIER") == "thorough" {
+		nops = g.Range(5, 90)
+	}
 	if mode == "C05" {
 		nops = g.Range(4, 20)
 	}
